@@ -591,6 +591,14 @@ def fam_build():
             out.append(dict(base, id="bd%d" % k, method="GET"))
             out.append(dict(base, id="bd%d:h" % k, method="HEAD"))
             out.append(dict(base, id="bd%d:p" % k, method="POST"))
+    # a writer that is dropped without a (non-empty) write, or after a flush only: the body must still match the coding header
+    for ae in ("gzip", None, "gzip;q=0.5, identity"):
+        for level in (0, 1, 6):
+            for ops in (["G", "X", "D"], ["G", "L", "X", "D"], ["G", "F", "X", "D"], ["G", "F", "P", "X", "D"], ["G", "L", "F", "L", "X", "D"]):
+                k += 1
+                base = {"kind": "build", "chunk": 3, "ae": ae, "level": level, "ops": ops}
+                out.append(dict(base, id="bd%d" % k, method="GET"))
+                out.append(dict(base, id="bd%d:p" % k, method="POST"))
     # the builder methods may be called several times and in any order: only the last level counts
     for ae in ("gzip", "identity", None):
         for seq in ((0, 6), (6, 0), (0, 0, 9), (9, 1), (0, 1, 0)):
@@ -637,7 +645,7 @@ def oracle_build(pid, sc, ob, pair=None):
                     hexd, _frames, _shortest, t = r.split("!")[0][1:].split(":")
                     data += bytes.fromhex(hexd)
                     ended = ended or t == "N"
-            if ended and written:
+            if ended:
                 if ce == [b"gzip"]:
                     import zlib
                     try:
